@@ -24,6 +24,9 @@ def cfg : Cfg :=
     nameSwallows := handledWith Gen.C12.nameCmdlineClauses "pass"
     exeGuessOn := handledWith Gen.C12.exeNativeClauses "guess"
     exeGuessSwallows := handledWith Gen.C12.exeGuessClauses "pass"
-    guessReraises := allExc.filter (catches Gen.C12.guessReraiseClass) }
+    guessReraises := allExc.filter (catches Gen.C12.guessReraiseClass)
+    -- the `except` clauses of `path_exists_strict` around `os.stat(path)`, read the same way over OSError's subclasses
+    existsFalseOn := osHandledWith Gen.C12.existsStrictClauses "false"
+    existsTrueOn := osHandledWith Gen.C12.existsStrictClauses "true" }
 
 end Psutil.C12
